@@ -57,7 +57,7 @@ func checkC07(e *Env) {
 	gd := e.fn("integrityblock.GenerateDataToBeSigned")
 	out := gate.Outcome{Kind: gate.ErrNil, Idx: 1}
 	be := func(x string) gate.Gate {
-		return gate.CallInstr("D.len("+x+")", "binary.Write", "local:buf", "global:binary.BigEndian", "conv(len("+x+"))")
+		return beWrite("D.len("+x+")", "local:buf", 8, "conv(len("+x+"))", false)
 	}
 	tAttr := "call:(*bytes.Buffer).Bytes(local:attributesBytesBuf)"
 	e.requireGates("COVER", gd, out, noCfg,
